@@ -806,6 +806,15 @@ def _execute_raw(scn: dict) -> dict:
                 V("tracking", "version-not-recorded", f"client tracks {after['protocol_version']!r}, answer was {v!r}")
             if WELL.match(v) and after["batching_enabled"] != _date_lt_cutoff(v):
                 V("tracking", "batching-mode", f"batching_enabled={after['batching_enabled']} for negotiated {v}")
+            elif not WELL.match(v):
+                # a version label that is no date: whatever mode the library gives such a version, a client that arrived there through a
+                # handshake must be in the same mode as a client created for that version directly (no leftovers of the previous one)
+                from chuk_mcp.protocol.features.batching import BatchProcessor as _BP
+                fresh = _BP(v).batching_enabled
+                if after["batching_enabled"] != fresh:
+                    V("tracking", "batching-mode-left-over", f"batching_enabled={after['batching_enabled']} after negotiating {v!r} (before: {st['before']}); "
+                                                             f"a processor created for {v!r} says {fresh}")
+                probe("negotiated_a_version_label_that_is_no_date")
         elif after != st["before"]:
             V("tracking", "changed-on-failure", f"tracked client changed from {st['before']} to {after} although initialization failed")
     # probes / faults
